@@ -149,6 +149,10 @@ func schemaForArray(typ reflect.Type) (Schema, error) {
 }
 
 func schemaForMap(typ reflect.Type) (Schema, error) {
+	if typ.Key().Kind() != reflect.String {
+		return Schema{}, fmt.Errorf("type %s not supported: AVRO map keys must be strings", typ)
+	}
+
 	s, err := schemaForType(typ.Elem())
 	if err != nil {
 		return Schema{}, err
